@@ -205,7 +205,8 @@ impl Model<'_> {
 }
 
 fn role_name(i: usize) -> String {
-    format!("r{i}")
+    // listed order and alphabetical order of sibling roles must not coincide: 0..7 -> 3,1,6,4,2,0,5
+    format!("r{}", if i < 7 { (i * 5 + 3) % 7 } else { i })
 }
 
 pub fn prop(case: &Case) -> Outcome {
